@@ -8,9 +8,11 @@
 import os
 import sys
 
-if os.environ.get("PYTHONHASHSEED") != "0":
-    # the driver's own choices must not depend on hash randomisation
-    os.environ["PYTHONHASHSEED"] = "0"
+_WANT = os.environ.get("PMSIM_DRIVER_HASHSEED", "0")
+if os.environ.get("PYTHONHASHSEED") != _WANT:
+    # the driver's own choices must not depend on hash randomisation (the
+    # self-test deliberately runs one driver under another value)
+    os.environ["PYTHONHASHSEED"] = _WANT
     os.execv(sys.executable, [sys.executable] + sys.argv)
 
 sys.path.insert(0, os.path.dirname(os.path.abspath(__file__)))
